@@ -538,7 +538,14 @@ def check_arip(res, src, tgt, start, Y, form, agg, tvec, tkind, call_form="func"
     kw = dict(method="arip", model=(form, agg))
     tv = np.full(T, NAN) if tvec is None else np.array(tvec, dtype=float)
     if tvec is not None:
-        kw["target"] = build(tgt, hi0, tv.reshape(-1, 1))
+        if (start + T) % 2 == 0:
+            # (every other start period) the target series carries history before the disaggregated span and values after it: only the targets
+            # dated inside the span count
+            ext = np.concatenate(([7.7, 8.8, 9.9], tv, [6.6, 5.5]))
+            kw["target"] = build(tgt, hi0 - 3, ext.reshape(-1, 1))
+            res.count("arip_targets_with_history_outside_the_span")
+        else:
+            kw["target"] = build(tgt, hi0, tv.reshape(-1, 1))
     try:
         if call_form == "func":
             out = ir.disaggregate(x, FREQ[tgt], **kw)
